@@ -1,0 +1,42 @@
+//go:build verif
+
+// Contracts for "every RPC and control route is behind the authenticator" (property C22).
+// Comment-only.
+//
+// admitted(r) is a ghost predicate whose only source is authenticate returning non-nil for r
+// (`establishes`). Each gated handler must have it at EVERY call it makes, other than the call
+// to authenticate itself and the feature-not-configured refusals that precede it: so no body
+// read, method lookup, handler, provider, resolver, hook or state method runs for a request the
+// authenticator rejected.
+
+package vgirpc
+
+//@ ghost pred admitted(r *http.Request)
+
+//@ func (*HttpServer).authenticate
+//@   property C22
+//@   establishes result != nil ==> admitted(r)
+
+//@ func (*HttpServer).handleUnary
+//@   property C22
+//@   at call * except (*HttpServer).authenticate assert [gate] admitted(r)
+
+//@ func (*HttpServer).handleDescribe
+//@   property C22
+//@   requires admitted(r)
+
+//@ func (*HttpServer).handleStreamInit
+//@   property C22
+//@   at call * except (*HttpServer).authenticate assert [gate] admitted(r)
+
+//@ func (*HttpServer).handleStreamExchange
+//@   property C22
+//@   at call * except (*HttpServer).authenticate assert [gate] admitted(r)
+
+//@ func (*HttpServer).handleUploadURLInit
+//@   property C22
+//@   at call * except (*HttpServer).authenticate, http.NotFound assert [gate] admitted(r)
+
+//@ func (*HttpServer).handleIntrospectToken
+//@   property C22
+//@   at call * except (*HttpServer).authenticate, writeIntrospectRefusal#1, slog.Debug assert [gate] admitted(r)
